@@ -41,7 +41,9 @@ func (l *List) MultiUse(st funcGen.Stack[Value]) (Map, error) {
 			pr := prList[i]
 			go mu.runConsumer(pr, done)
 		}
-		err := run(l.iterable(st))
+		// a panic of the source is turned into an error item, otherwise the consumers would
+		// wait forever for the rest of the list
+		err := run(recoverProducer(l.iterable(st)))
 
 		if err != nil {
 			return EmptyMap, err
